@@ -40,6 +40,17 @@ class UAttrs(ValueError):
   pass
 
 
+class UClassDefault(RuntimeError):
+  """public class-level defaults that the raised instance overrides"""
+  status = 500
+  retryable = False
+
+  def __init__(self, n):
+    super().__init__(n)
+    self.status = n
+    self.retryable = True
+
+
 class USlots(Exception):
   __slots__ = ('code_', 'detail')
 
@@ -104,6 +115,7 @@ FACTORIES = [
     ('LookupError', lambda n: LookupError(n, n)),
     ('UnicodeEncodeError', lambda n: UnicodeEncodeError('ascii', 'abcdef', 2, 4, 'why')),
     ('UNewOdd', lambda n: UNewOdd(n, 'hidden')),
+    ('UClassDefault', lambda n: UClassDefault(n)),
 ]
 NF = len(FACTORIES)
 PASS_THROUGH = [KeyboardInterrupt, SystemExit, GeneratorExit]
@@ -143,7 +155,7 @@ def trigger(how):
 
 def c17_attrs(cls: int, how: int, n: int) -> bool:
   """
-  pre: 0 <= cls < 25 and 0 <= how < 5
+  pre: 0 <= cls < 26 and 0 <= how < 5
   """
   world.fresh()
   cls = rt.pick(cls, NF)
@@ -199,7 +211,7 @@ def c17_attrs(cls: int, how: int, n: int) -> bool:
 
 def c17_msg(cls: int, how: int, n: int) -> bool:
   """
-  pre: 0 <= cls < 25 and 0 <= how < 5 and 0 <= n < 3
+  pre: 0 <= cls < 26 and 0 <= how < 5 and 0 <= n < 3
   """
   world.fresh()
   cls = rt.pick(cls, NF)
@@ -256,8 +268,8 @@ HARNESSES = {
         smoke=[dict(cls=3, how=2, n=4), dict(cls=13, how=0, n=4), dict(cls=17, how=3, n=4)],
         tiers={'quick': dict(split=dict(cls=list(range(NF))), budget_s=100),
                'thorough': dict(split=dict(cls=list(range(NF)), how=list(range(5))), budget_s=300)},
-        bounds='25 exception classes (16 builtin incl. OSError family, StopIteration, SyntaxError, ImportError, '
-               'AttributeError, Unicode errors, ExceptionGroup; 7 user classes: required __init__ / __new__ arguments (recoverable from args or not), '
+        bounds='26 exception classes (16 builtin incl. OSError family, StopIteration, SyntaxError, ImportError, '
+               'AttributeError, Unicode errors, ExceptionGroup; 8 user classes: class-level defaults overridden on the instance, required __init__ / __new__ arguments (recoverable from args or not), '
                'extra attributes, __slots__, custom __str__, property) x 5 ways of raising (direct, nested 1-2 levels, '
                'while evaluating a reference, under a scope); integer payload: all ints; every public non-callable '
                'attribute of the original compared'),
